@@ -4,16 +4,90 @@ import (
 	"fmt"
 	"go/ast"
 	"go/token"
+	"sort"
 	"strings"
 
 	"golang.org/x/tools/go/ssa"
 )
+
+// B: the documented range is the range. Every comparison of an accumulated number (the accumulator cell or the step
+// result, E-ACC taint) with a constant in the four parsers below draws the line exactly at the documented bound:
+// normalised to "accepted iff value <= B", B is 65535 for the URI port, 2^32-1 for CSeq and the unsigned-integer
+// headers, 255 for an IPv4 group. A guard one short of the bound rejects a value the property says is reported.
+func ruleB(c *Ctx) {
+	steps := findAccSteps(c.Prog)
+	taint := computeAccTaint(c.Prog, steps)
+	want := map[string]int64{"ParseURI": 65535, "ParseCSeqVal": 1<<32 - 1, "ParseUIntVal": 1<<32 - 1, "IP4Prefix": 255}
+	n := 0
+	var names []string
+	for k := range want {
+		names = append(names, k)
+	}
+	sort.Strings(names)
+	for _, name := range names {
+		fn := c.SFuncs[name]
+		if fn == nil {
+			c.fail("B", name, token.NoPos, "not found")
+			continue
+		}
+		cnt := 0
+		for _, b := range fn.Blocks {
+			for _, ins := range b.Instrs {
+				bo, ok := ins.(*ssa.BinOp)
+				if !ok {
+					continue
+				}
+				var k int64
+				var isC, flipped bool
+				var tv ssa.Value
+				if kk, okc := constIntOf(bo.Y); okc && taint.vals[stripWiden(bo.X)] {
+					k, isC, tv = kk, true, bo.X
+				} else if kk, okc := constIntOf(bo.X); okc && taint.vals[stripWiden(bo.Y)] {
+					k, isC, tv, flipped = kk, true, bo.Y, true
+				}
+				if !isC || tv == nil {
+					continue
+				}
+				op := bo.Op
+				if flipped {
+					switch op {
+					case token.LSS:
+						op = token.GTR
+					case token.GTR:
+						op = token.LSS
+					case token.LEQ:
+						op = token.GEQ
+					case token.GEQ:
+						op = token.LEQ
+					}
+				}
+				var bound int64
+				switch op {
+				case token.GTR, token.LEQ:
+					bound = k
+				case token.GEQ, token.LSS:
+					bound = k - 1
+				default:
+					continue
+				}
+				if bound < 16 {
+					continue // digit-count and small structural tests, not the value range
+				}
+				cnt++
+				n++
+				c.check(bound == want[name], "B", fmt.Sprintf("%s:range-test#%d", name, cnt), bo.Pos(), fmt.Sprintf("the accumulated number is accepted exactly up to the documented bound %d (this test draws the line at %d)", want[name], bound))
+			}
+		}
+	}
+	c.check(n >= 5, "B", "range-tests", token.NoPos, fmt.Sprintf("%d range tests on accumulated numbers inspected (frozen minimum 5)", n))
+}
 
 func init() {
 	register(&PropDef{
 		ID: "C10",
 		Rules: []Rule{
 			{"A", "every decimal accumulation step x*10+d (discovered on SSA) is wrap-free: interval analysis over ideal integers with byte-set digit ranges and dominating guards, or an A2 pre-check x > (MAX-d)/10, or an A1 widened check of the same cells that dominates the step", ruleA},
+			{"B", "the documented range is the range: every comparison of an accumulated number with a constant in ParseURI (port), ParseCSeqVal, ParseUIntVal and IP4Prefix, normalised to 'accepted iff value <= B', has B = 65535 / 2^32-1 / 2^32-1 / 255 — a guard one short of the bound rejects a value the property says is reported exactly", ruleB},
 			{"AR", "number/field pairing for the URI port: in the extracted ParseURI automaton, every entry into a state that accumulates port digits happens with the accumulator at 0 (reachability over state x {zero, non-zero})", ruleAR},
 			{"W", "every other +,-,*,<< on an accumulator-derived value (q scaling, combined range expressions) is wrap-free at the point where it is computed", ruleW},
 			{"R", "documented ranges not implied by a type width: Content-Length <= 9 digits and <= 2^24 on its success path, the limit constants, contact expires saturating at the constant 2^32-1, q with more than three decimals flagged", ruleR},
